@@ -1,0 +1,86 @@
+//go:build verif
+
+// Machine-checked contracts for package protocol (comment-only; compiled only with
+// the build tag "verif", where it contributes nothing to the binary). The lines starting
+// with //@ are read by the verification-condition generator in /verif/engine together
+// with the SSA of the functions they name; see /verif/DESIGN.md.
+
+package protocol
+
+//@ globalinv envelopeMagicNumber serves C14: len(envelopeMagicNumber) == 4 && envelopeMagicNumber[0] == 0xB9 && envelopeMagicNumber[1] == 0x0E && envelopeMagicNumber[2] == 0x43 && envelopeMagicNumber[3] == 0xB4
+//@ globalinv envelopeMagicNumberLen serves C14: envelopeMagicNumberLen == 4
+
+//@ pure func hasMagic(d []byte) bool = len(d) >= 4 && d[0] == 0xB9 && d[1] == 0x0E && d[2] == 0x43 && d[3] == 0xB4
+
+// wellFormed: the header of d is a valid envelope header for type t (the property's "the envelope it encodes")
+//@ pure func wellFormed(d []byte, t msgType) bool = len(d) >= 8 && hasMagic(d) && d[4] == 0 && d[7] == byte(t) && int(d[5]) <= len(d)
+//@ pure func crcFlag(d []byte) bool = int(d[6]) % 2 == 1
+//@ pure func crcOK(d []byte) bool = int(d[5]) == 12 && len(d) >= 12 && be32(d, 8) == crc32c(d[12:])
+
+//@ func hasBit serves C14
+//@   safety
+//@   ensures pos == 0 ==> result == (int(n) % 2 == 1)
+//@   ensures pos < 8 ==> result == ((int(n) / pow2(int(pos))) % 2 == 1)
+//@ pure func pow2(k int) int = k <= 0 ? 1 : k == 1 ? 2 : k == 2 ? 4 : k == 3 ? 8 : k == 4 ? 16 : k == 5 ? 32 : k == 6 ? 64 : 128
+
+// checkEnvelope is total (safety: no index/slice instruction can panic for any data) and
+// accepts exactly the well-formed envelopes of the expected type whose optional checksum matches.
+//@ func checkEnvelope serves C14
+//@   returns (payload, err)
+//@   safety
+//@   ensures [sound] err == nil ==> wellFormed(data, expectedType) && (crcFlag(data) ==> crcOK(data))
+//@   ensures [complete] wellFormed(data, expectedType) && (crcFlag(data) ==> crcOK(data)) ==> err == nil
+//@   ensures [payload] err == nil ==> arrOf(payload) == arrOf(data) && offOf(payload) == offOf(data) + int(data[5]) && len(payload) == len(data) - int(data[5])
+//@   ensures [error-no-payload] err != nil ==> isnil(payload)
+
+//@ func unmarshalEnvelope serves C14
+//@   safety
+//@   ensures [rejects] !old(wellFormed(data, msgType) && (crcFlag(data) ==> crcOK(data))) ==> result != nil
+
+//@ func UnmarshalReplicationResponse serves C14
+//@   returns (epoch, hw, msgs, err)
+//@   safety
+//@   ensures [sound] err == nil ==> wellFormed(data, msgTypeReplicationResponse) && len(data) - int(data[5]) >= 16
+//@   ensures [fields] err == nil ==> epoch == be64(data, int(data[5])) && hw == int64(be64(data, int(data[5]) + 8))
+//@   ensures [rest] err == nil ==> arrOf(msgs) == arrOf(data) && offOf(msgs) == offOf(data) + int(data[5]) + 16 && len(msgs) == len(data) - int(data[5]) - 16
+
+//@ func marshalEnvelope serves C14
+//@   returns (buf, err)
+//@   safety
+//@   ensures [length] err == nil ==> len(buf) == 8 + pbLen(msg)
+//@   ensures [magic] err == nil ==> hasMagic(buf)
+//@   ensures [header] err == nil ==> buf[4] == 0 && buf[5] == 8 && buf[6] == 0 && buf[7] == byte(msgType)
+//@   ensures [body] err == nil ==> (forall i int :: 0 <= i && i < pbLen(msg) ==> buf[8+i] == pbByte(msg, i))
+
+// Round trip: whatever marshalEnvelope produces for (m, t) is accepted by checkEnvelope for t
+// with the protobuf bytes as payload, and rejected for every other type.
+//@ lemma envelopeRoundTrip serves C14: forall b []byte, t msgType, t2 msgType :: (len(b) >= 8 && hasMagic(b) && b[4] == 0 && b[5] == 8 && b[6] == 0 && b[7] == byte(t)) ==> (wellFormed(b, t) && !crcFlag(b) && (t2 != t ==> !wellFormed(b, t2)))
+
+//@ func UnmarshalPublish serves C14
+//@   safety
+//@ func UnmarshalAck serves C14
+//@   safety
+//@ func UnmarshalServerInfoRequest serves C14
+//@   safety
+//@ func UnmarshalServerInfoResponse serves C14
+//@   safety
+//@ func UnmarshalPropagatedRequest serves C14
+//@   safety
+//@ func UnmarshalPropagatedResponse serves C14
+//@   safety
+//@ func UnmarshalPartitionStatusRequest serves C14
+//@   safety
+//@ func UnmarshalPartitionStatusResponse serves C14
+//@   safety
+//@ func UnmarshalRaftJoinRequest serves C14
+//@   safety
+//@ func UnmarshalRaftJoinResponse serves C14
+//@   safety
+//@ func UnmarshalPartitionNotification serves C14
+//@   safety
+//@ func UnmarshalLeaderEpochOffsetRequest serves C14
+//@   safety
+//@ func UnmarshalLeaderEpochOffsetResponse serves C14
+//@   safety
+//@ func UnmarshalReplicationRequest serves C14
+//@   safety
